@@ -96,7 +96,7 @@ def run(cfg, want=('a', 'b')):
             return exit_memo[sig]
         exit_memo[sig] = None          # recursion guard
         g = by_sig.get(sig)
-        if g is None or not any(is_rcs(p['t']) and p.get('byref') and not p.get('constref') for p in g.params):
+        if g is None or not any(is_rcs(p['t']) and p.get('byref') for p in g.params):
             return None
         out = analyse(g, collect_only=True)
         exit_memo[sig] = out
@@ -116,7 +116,7 @@ def run(cfg, want=('a', 'b')):
             res.functions.add(f.sig)
         sites = {}   # (kind, loc, var, op) -> union of states observed at the site
         exits = {}   # param index -> union of states at non-restart returns
-        pidx = {p['did']: i for i, p in enumerate(f.params) if is_rcs(p['t']) and p.get('byref') and not p.get('constref')}
+        pidx = {p['did']: i for i, p in enumerate(f.params) if is_rcs(p['t']) and p.get('byref')}
 
         def see(kind, loc, var, op, cur):
             k = (kind, loc, var, op)
